@@ -35,7 +35,8 @@ pub fn universe_lock(i: usize) -> Script {
         2 => (ScriptHashType::Data, vec![0xaa, 0x01, 0x02]),
         3 => (ScriptHashType::Data, vec![]),
         4 => (ScriptHashType::Type, vec![0xaa]),
-        _ => (ScriptHashType::Data, vec![0xff, 0xff, 0xff]),
+        // 0xff-heavy args: descending searches start from `prefix | 0xff..`, so long runs of 0xff matter
+        _ => (ScriptHashType::Data, vec![0xff; 12]),
     };
     Script::new_builder().hash_type(ht.into()).code_hash(as_code_hash()).args(Bytes::from(args).pack()).build()
 }
@@ -105,6 +106,8 @@ pub struct Chain {
     /// transactions of orphaned blocks waiting to be committed again on this branch (a real reorg
     /// re-includes them, usually at another height / position)
     pub mempool: Vec<TransactionView>,
+    /// build blocks whose nonce is deliberately NOT a PoW solution (forged branch without work)
+    pub skip_pow: bool,
 }
 
 struct Provider<'a>(&'a HashMap<OutPoint, CellInfo>);
@@ -168,6 +171,7 @@ impl Chain {
             txgen,
             mined_hashes: tries,
             mempool: vec![],
+            skip_pow: false,
         };
         chain.append(genesis);
         chain
@@ -355,6 +359,18 @@ impl Chain {
             .transactions(txs)
             .extension(Some(Bytes::from(ext).pack()))
             .build();
+        if self.skip_pow {
+            // pick a nonce that is not a solution
+            let engine = self.pow.engine();
+            let mut nonce = self.rng.next() as u128;
+            loop {
+                let h = block.header().as_advanced_builder().nonce(nonce.pack()).build();
+                if !engine.verify(&h.data()) {
+                    return block.as_advanced_builder().header(h).build_unchecked();
+                }
+                nonce = nonce.wrapping_add(1);
+            }
+        }
         let (h, tries) = mine_header(&self.pow, block.header(), self.rng.next() as u128);
         self.mined_hashes += tries;
         block.as_advanced_builder().header(h).build_unchecked()
@@ -389,6 +405,7 @@ impl Chain {
             txgen: self.txgen.clone(),
             mined_hashes: 0,
             mempool: vec![],
+            skip_pow: false,
         };
         for b in &self.blocks[..=f as usize] {
             c.append(b.clone());
